@@ -269,6 +269,7 @@ def run_scenario(sc):
                 # the peer accepted the TCP connection and stays silent
                 if conn_dropped(conn) and not conn.lost:
                     world.pending.remove(p)
+                    log.append(dict(ev="lost", k=k))
                     conn.lose(clean=False)
                     progressed = True
                 continue
@@ -279,6 +280,7 @@ def run_scenario(sc):
                 world.mark = fw.now()
                 world.pending.remove(p)
                 p[3] = "closed"
+                log.append(dict(ev="lost", k=k))
                 conn.lose(clean=False)
                 progressed = True
                 continue
@@ -291,6 +293,7 @@ def run_scenario(sc):
                         conn.send(message.Abort("wamp.error.no_such_realm", message="no realm"))
                         fw.settle()
                         conn.poll()
+                        log.append(dict(ev="lost", k=k))
                         conn.lose(clean=True)
                         progressed = True
                         break
@@ -308,6 +311,7 @@ def run_scenario(sc):
                         notes.append(dict(ev="outcome", k=k, kind="joined_lost"))
                         world.mark = fw.now()
                         world.pending.remove(p)
+                        log.append(dict(ev="lost", k=k))
                         conn.lose(clean=False)
                         break
                 elif isinstance(m, message.Goodbye):
@@ -324,6 +328,7 @@ def run_scenario(sc):
                 notes.append(dict(ev="outcome", k=k, kind="closed_by_client", stage=p[3]))
                 world.mark = fw.now()
                 world.pending.remove(p)
+                log.append(dict(ev="lost", k=k))
                 conn.lose(clean=True)
                 progressed = True
         fw.settle()
@@ -355,6 +360,7 @@ def run_scenario(sc):
     for p in list(world.pending):
         # whatever is still connected at the end of the script goes away now, so that every session ends
         p[1].poll()
+        log.append(dict(ev="lost", k=p[0]))
         p[1].lose(clean=True)
     fw.settle()
     note_done()
